@@ -10,6 +10,7 @@ demo=$(git status --porcelain | awk '{print $2}' | grep 'zz_seed_demo_test.go$' 
 [ -n "$demo" ] || { echo "NO-DEMO"; exit 2; }
 pkgdir=$(dirname "$demo")
 mkdir -p SEED/.keep && cp "$demo" SEED/.keep/demo_test.go
+[ -f SEED/go.mod ] || printf 'module seedcopy\n\ngo 1.23\n' > SEED/go.mod   # keep the copied test out of ./...
 # clean tree
 git checkout -q -- . ; rm -f "$demo"
 git apply --check SEED/patch.diff || { echo "PATCH-DOES-NOT-APPLY"; exit 1; }
